@@ -61,6 +61,19 @@ Definition Known_C35 (s : stmt) : bool :=
   | _, _ => false
   end.
 
+(* known finding param_in_earlier_with_where (known_findings.txt): when a query part has several
+   WITH clauses, a parameter in the WHERE of a WITH that is not the last one is not substituted;
+   the filter swallows the evaluation error and drops every row *)
+Definition is_with (c : clause) : bool := match c with CWith _ _ => true | _ => false end.
+Fixpoint known_param_with_where (cs : list clause) : bool :=
+  match cs with
+  | [] => false
+  | CWith _ (Some e) :: rest => (expr_has_param e && existsb is_with rest) || known_param_with_where rest
+  | _ :: rest => known_param_with_where rest
+  end.
+Definition Known_C35_query (q : query) : bool :=
+  existsb (fun s => known_param_with_where (q_clauses s)) (q_parts q).
+
 Lemma ofold_ext {A B} (f f' : A -> B -> outcome A) (l : list B) :
   (forall a b, f a b = f' a b) -> forall a, ofold f l a = ofold f' l a.
 Proof.
